@@ -38,6 +38,8 @@ EXTRA_THEOREMS = [
     "psound_pushdown_apply_scalar_agg_partial", "psound_pushdown_apply_group_agg_partial",
     "pushdown_apply_scalar_agg_merges_equal_left_rows",
     "lift_extends", "dfilter_extends", "dproj_extends", "dagg_extends",
+    # rewriting below other operators (Thm/C01Congr.lean)
+    "Ctx.out_eq", "ctx_congr", "ctx_congr_perm",
 ]
 RULES_JSON = os.path.join(vlib.LEAN, "RlModel/Gen/rules.json")
 DOM = {"N": ["null", "n:0", "n:1", "n:-1", "n:2", "n:3", "n:-2"],
@@ -208,13 +210,13 @@ def run(ck):
     cand += ["C01." + n for n in EXTRA_THEOREMS]
     status = {}
     errs_all = {}
-    for mod, extra in (("RlModel.Thm.C01", ["drv_c01"]), ("RlModel.Thm.C01Plan", []), ("RlModel.Thm.C01PlanPerm", []), ("RlModel.Thm.C01Apply", [])):
+    for mod, extra in (("RlModel.Thm.C01", ["drv_c01"]), ("RlModel.Thm.C01Plan", []), ("RlModel.Thm.C01PlanPerm", []), ("RlModel.Thm.C01Apply", []), ("RlModel.Thm.C01Congr", [])):
         st, log, errs = vlib.check_lean_obligations(mod, cand, "RlModel", extra)
         for n, v in st.items():
             if n not in status or (v["status"] == "ok" and status[n]["status"] != "ok") or (status[n]["status"] == "missing" and v["status"] != "missing"):
                 status[n] = v
         errs_all.update(errs)
-    forb = vlib.lean_forbidden(vlib.lean_sources("RlModel.Thm.C01") + vlib.lean_sources("RlModel.Thm.C01Plan") + vlib.lean_sources("RlModel.Thm.C01PlanPerm") + vlib.lean_sources("RlModel.Thm.C01Apply"))
+    forb = vlib.lean_forbidden(vlib.lean_sources("RlModel.Thm.C01") + vlib.lean_sources("RlModel.Thm.C01Plan") + vlib.lean_sources("RlModel.Thm.C01PlanPerm") + vlib.lean_sources("RlModel.Thm.C01Apply") + vlib.lean_sources("RlModel.Thm.C01Congr"))
     obligations = {}
     refuted, broken = [], []
     prefuted, pbroken = [], []
